@@ -78,7 +78,7 @@ pub fn big(seed: u64, count: usize) -> Vec<Value> {
             out.push(json!({"op": "mint", "n": n.to_string(), "l": l.to_string(), "x": a.to_string(),
                             "r": r.map(|v| v.to_string()).unwrap_or("panic".into())}));
         } else {
-            let b = if l == 0 { 0 } else { a % (l + (l == u128::MAX) as u128).max(1) };
+            let b = if l == 0 { 0 } else if l == u128::MAX { a } else { a % (l + 1) };
             let b = b.min(l);
             if l == 0 || !representable(n, b, l) {
                 continue;
